@@ -10,6 +10,12 @@ mod w1_alloc;
 mod w1_arena;
 mod w1_gen;
 mod w1_ops;
+mod w2;
+mod w2_box;
+mod w2_gen;
+mod w2_ops;
+mod w2_str;
+mod w2_vec;
 
 #[global_allocator]
 static SIM: simalloc::SimAlloc = simalloc::SimAlloc;
